@@ -490,7 +490,9 @@ func (env *mdEnv) script(f *ast.File, name, coqName string, b *strings.Builder) 
 	b.WriteString("].\n\n")
 }
 
-// call skeleton: the calls on vx (method calls, vx.console.Close) in source order
+// call skeleton: the known calls on vx (method calls, vx.console.Close) in source
+// order; any other call on vx.tw / vx.console / vx.parser, or of a method whose
+// name is output-relevant, is refused
 func mdSkeleton(f *ast.File, name string, known map[string]string, ignore map[string]bool) []string {
 	fd := findFunc(f, "Vaxis", name)
 	if name == "New" {
@@ -498,6 +500,34 @@ func mdSkeleton(f *ast.File, name string, known map[string]string, ignore map[st
 	}
 	if fd == nil {
 		die("vaxis.go: %s not found", name)
+	}
+	// `x, err := vx.reportWinsize(); if err != nil { vx.Close(); return ... }`: the
+	// Close call of that error branch is the only vx.Close() a skeleton may contain
+	closeOnError := map[*ast.CallExpr]bool{}
+	for i, st := range fd.Body.List {
+		as, ok := st.(*ast.AssignStmt)
+		if !ok || len(as.Rhs) != 1 || i+1 >= len(fd.Body.List) {
+			continue
+		}
+		call, ok := as.Rhs[0].(*ast.CallExpr)
+		if !ok || !mdIsPath(call.Fun, "reportWinsize") {
+			continue
+		}
+		is, ok := fd.Body.List[i+1].(*ast.IfStmt)
+		if !ok || is.Else != nil {
+			continue
+		}
+		be, ok := is.Cond.(*ast.BinaryExpr)
+		if !ok || be.Op != token.NEQ || !isIdent(be.X, "err") || !isIdent(be.Y, "nil") {
+			continue
+		}
+		for _, b := range is.Body.List {
+			if es, ok := b.(*ast.ExprStmt); ok {
+				if c, ok := es.X.(*ast.CallExpr); ok && mdIsPath(c.Fun, "Close") {
+					closeOnError[c] = true
+				}
+			}
+		}
 	}
 	var out []string
 	ast.Inspect(fd.Body, func(x ast.Node) bool {
@@ -513,6 +543,10 @@ func mdSkeleton(f *ast.File, name string, known map[string]string, ignore map[st
 			return true
 		}
 		key := strings.Join(p, ".")
+		if closeOnError[call] {
+			out = append(out, "CnCloseIfFailed")
+			return true
+		}
 		if c, ok := known[key]; ok {
 			out = append(out, c)
 			return true
@@ -520,7 +554,7 @@ func mdSkeleton(f *ast.File, name string, known map[string]string, ignore map[st
 		if ignore[key] {
 			return true
 		}
-		if p[0] == "tw" || p[0] == "console" || p[0] == "parser" || len(p) == 1 {
+		if p[0] == "tw" || p[0] == "console" || p[0] == "parser" || mdOutputNames[p[len(p)-1]] {
 			die("%s: %s calls vx.%s, which the C04 call skeleton does not know", mdPos(call), name, key)
 		}
 		return true
